@@ -70,8 +70,9 @@ def run(c):
               "order, some names twice or three times, up to 20 captures, with typed-nil / nil-interface / empty-node-slice captures, templates from a token grammar ($name, $name.b, $namez, $$, $nope, lone $), with and "
               "without truncation under 7 TruncateLen values; nodeText (hook) on every expression of a file incl. nodes ending at EOF "
               "and nodes beyond a truncated copy; engine: generated rule groups (1-2 alternatives on separate lines, $* lists, At(), "
-              "Suggest incl. `$$` and the pattern's own text, Suggest() without Report(), an alternative written twice, MatchComment alternatives, a Suggest-only comment rule) over a generated target with offsets known by "
-              "construction, under TruncateLen 0/20/1000; non-trivial = a capture or $$ was interpolated; distinct by full case content")
+              "Suggest incl. `$$` and the pattern's own text, Suggest() without Report(), an alternative written twice, MatchComment alternatives, a Suggest-only comment rule, a family of eight comment rules that name their groups alike and meet on the same comments, "
+              "a family of four syntax rules that match the same calls) over a generated target with offsets known by "
+              "construction -- ten versions at one path (same length, shifted, //line, other FileSet, byte order mark, CRLF) --, under TruncateLen 0/20/1000; non-trivial = a capture or $$ was interpolated; distinct by full case content")
     c.trusted += [
         "go2coq c03extras (nodeText in-range test through the leaf translator; statement-shape facts of the report path)",
         "go2coq c03loop: the statement-level Go->Gallina translator of renderMessage's scanning loop (its reading of Go: let for :=/=, ++ for append, "
@@ -175,6 +176,8 @@ def run(c):
         engines = [o for o in obs if o["k"] == "engine"]
         comments = [o for o in obs if o["k"] == "engine-comment"]
         strays = [o for o in obs if o["k"] == "engine-stray"]
+        cfams = [o for o in obs if o["k"] == "engine-cfam"]
+        cfnone = [o for o in obs if o["k"] == "engine-cfam-none"]
         pending = []   # (kind, index, failure-dict) oracle mismatches inside the finding's guard, decided after K
 
         def ofail(what, inp, exp, got, guard=None):
@@ -219,6 +222,11 @@ def run(c):
             inp = {"group": o["group"], "alternative": o["alt"], "report_template": o["msg_tpl"], "suggest_template": o["sugg_tpl"],
                    "at": o["at"], "TruncateLen": o["L"], "whole_match": repr(b64(o["whole"]["text"])), "node_ends_at_EOF": o["at_eof"],
                    "captures": [(x["name"], repr(b64(x.get("text")))) for x in o["caps"]], "file": o.get("version")}
+            if o.get("rule"):
+                # a family of syntax rules competing for one call: the rules in front matched it and rejected it
+                inp["rule_that_reports"], inp["matched_and_rejected_before"] = o["rule"], o.get("rejected") or []
+                if o.get("rejected") and not o["missing"]:
+                    c.coverage["syntax_reports_behind_a_rejecting_rule_with_alike_names"] = c.coverage.get("syntax_reports_behind_a_rejecting_rule_with_alike_names", 0) + 1
             for k in ("o_msg", "w_msg", "o_sugg", "w_sugg"):
                 o[k] = b64(o.get(k))
             if o["missing"]:
@@ -284,6 +292,63 @@ def run(c):
                        input={"alternative": o["alt"], "message": repr(b64(o["o_msg"]))}, expected=o["w_line"], observed=o["o_line"])
             else:
                 c.nontriv(("comment-line", o["alt"], o["L"]))
+        # the family of comment rules that name their groups alike: the rule that reports uses ITS OWN submatches, whatever the rules
+        # tried on the comment before it (matched, rejected by their Where()) captured under the same names
+        c.count(len(cfnone))
+        nstale = {}
+        for o in cfams:
+            c.count()
+            for k in ("o_msg", "w_msg", "o_sugg", "w_sugg"):
+                o[k] = b64(o.get(k))
+            inp = {"comment": o.get("comment"), "rule_that_reports": o.get("rule"), "matched_and_rejected_before": o.get("rejected"),
+                   "submatches": [(x["name"], repr(b64(x.get("text")))) for x in (o.get("caps") or [])], "whole_match": repr(b64((o.get("whole") or {}).get("text"))),
+                   "TruncateLen": o["L"], "file": o.get("version")}
+            o["caps"] = o.get("caps") or []
+            if o.get("unexpected"):
+                c.fail("oracle", "a comment rule reports a comment that its regexp does not match or its Where() rejects", input=inp, expected="no report",
+                       observed={"group": o["o_group"], "message": repr(o["o_msg"])})
+                continue
+            if o["missing"]:
+                c.fail("oracle", "a comment rule that matches and whose Where() accepts did not report (no earlier rule accepts)", input=inp,
+                       expected={"group": o["w_group"], "message": repr(o["w_msg"])}, observed="no report")
+                continue
+            c.nontriv(("cfam", o["comment"], o["L"], o.get("version")))
+            if o.get("stale"):
+                nstale[o.get("version")] = nstale.get(o.get("version"), 0) + 1
+            if o["extra"]:
+                c.fail("oracle", "more than one comment-rule report for one comment", input=inp, expected=1, observed=1 + o["extra"])
+            if o["o_group"] != o["w_group"] or o["o_line"] != o["w_line"]:
+                c.fail("oracle", "not the first comment rule that accepts reports (RuleInfo group / line of the alternative)", input=inp,
+                       expected={"group": o["w_group"], "line": o["w_line"]}, observed={"group": o["o_group"], "line": o["o_line"], "message": repr(o["o_msg"])})
+                continue
+            if o["o_msg"] != o["w_msg"]:
+                c.fail("oracle", "comment-rule message is not the template interpolated with the reporting rule's own submatches", input=inp,
+                       expected=repr(o["w_msg"]), observed=repr(o["o_msg"]))
+            if (o["o_pos"], o["o_end"]) != (o["w_pos"], o["w_end"]):
+                c.fail("oracle", "comment-rule report is not located at the At() submatch of the reporting rule / its whole match", input=inp,
+                       expected=[o["w_pos"], o["w_end"]], observed=[o["o_pos"], o["o_end"]])
+            if o.get("o_file") != o.get("w_file") or o.get("o_func", "") != "":
+                c.fail("oracle", "comment-rule report names another file / a function", input=inp, expected=[o.get("w_file"), ""],
+                       observed=[o.get("o_file"), o.get("o_func", "")])
+            if o["o_has_sugg"] != o["w_has_sugg"]:
+                c.fail("oracle", "suggestion presence differs (comment rule)", input=inp, expected=o["w_has_sugg"], observed=o["o_has_sugg"])
+            elif o["o_has_sugg"]:
+                if (o["o_sugg_from"], o["o_sugg_to"]) != (o["w_pos"], o["w_end"]):
+                    c.fail("oracle", "comment-rule suggestion does not replace exactly the reported span", input=inp,
+                           expected=[o["w_pos"], o["w_end"]], observed=[o["o_sugg_from"], o["o_sugg_to"]])
+                if o["o_sugg"] != o["w_sugg"]:
+                    c.fail("oracle", "comment-rule quick-fix text is not the Suggest template interpolated with the reporting rule's own submatches", input=inp,
+                           expected=repr(o["w_sugg"]), observed=repr(o["o_sugg"]))
+        if engines:
+            nsf = sum(1 for o in engines if o.get("rejected") and not o.get("panic") and not o["missing"])
+            c.obligation("coverage:%s: syntax-rule reports behind rules that matched the same call and rejected it (>= 40)" % tag, nsf >= 40, "reached: %d" % nsf)
+        if cfams:
+            # the class the family exists for must be reached in every analysed version (fixed comments guarantee it)
+            versions_seen = {o.get("version") for o in cfams}
+            low = sorted(str(v) for v in versions_seen if nstale.get(v, 0) < 6)
+            c.obligation("coverage:%s: every version has >= 6 comment reports behind a rule that captured another text under the same name" % tag, not low,
+                         "versions below: %s" % low)
+            c.coverage["comment_reports_behind_a_rejecting_rule_with_alike_names"] = c.coverage.get("comment_reports_behind_a_rejecting_rule_with_alike_names", 0) + sum(nstale.values())
         # a comment rule with Suggest() only: message = "suggestion: " + the template (truncated), replacement untruncated
         suggonly = [o for o in obs if o["k"] == "engine-suggonly"]
         for o in suggonly:
@@ -329,6 +394,10 @@ def run(c):
             "  match m with None => false | Some r => (rep_pos r =? pos) && (rep_end r =? end_) && bytes_eqb (rep_msg r) msg && (rep_line r =? ln) &&",
             "    match rep_sugg r with None => negb hs | Some (f, t, s) => hs && (f =? sf) && (t =? st) && bytes_eqb s sg end end.",
         ])
+        kcf = [o for o in cfams if not o.get("unexpected") and not o["missing"]]
+        for o in kcf:
+            o["at_eof"] = False
+        engines = engines + kcf   # the report model runs on the comment-rule reports as well (captures = the reporting rule's submatches)
         good_engines = [(i, o) for i, o in enumerate(engines) if not o.get("panic") and not o["missing"]]
         good_renders = [(i, o) for i, o in enumerate(renders) if not o.get("panic")]
         good_ntexts = [(i, o) for i, o in enumerate(ntexts) if not o.get("panic")]
@@ -407,7 +476,7 @@ def run(c):
         for i in be:
             o = engines[i]
             c.fail("corr", "Coq report model (mk_report + load_alternatives) differs from the observed ReportData",
-                   input={"group": o["group"], "alternative": o["alt"], "report_template": o["msg_tpl"], "suggest_template": o["sugg_tpl"], "at": o["at"],
+                   input={"group": o.get("w_group") or o["group"], "comment": o.get("comment"), "alternative": o["alt"], "report_template": o["msg_tpl"], "suggest_template": o["sugg_tpl"], "at": o["at"],
                           "TruncateLen": o["L"]},
                    observed={"pos": o["o_pos"], "end": o["o_end"], "message": repr(o["o_msg"]), "suggestion": repr(o["o_sugg"]), "line": o["o_line"]})
         c.coverage["model_vs_impl_cases"] = c.coverage.get("model_vs_impl_cases", 0) + len(good_renders) + len(good_ntexts) + len(good_engines)
